@@ -8,7 +8,15 @@ import (
 	"verifengine/sx"
 )
 
-const repoDir = "/repo"
+// repoDir is the tree under check: /repo, unless VERIF_REPO names a scratch
+// worktree (used only by tools/mutest.sh to try seeded changes without
+// touching /repo while other checks are running).
+var repoDir = func() string {
+	if d := os.Getenv("VERIF_REPO"); d != "" {
+		return d
+	}
+	return "/repo"
+}()
 
 var verifDir = func() string {
 	if d := os.Getenv("VERIF_DIR"); d != "" {
